@@ -77,6 +77,19 @@ def make_aligner(P, mult, var, it=1):
     return al
 
 
+_SHARED = {}
+
+
+def shared(ctor, *args):
+    """the long-lived instance of `ctor(*args)` of this worker process (see the note above `_ALIGNERS`)"""
+    key = (ctor.__name__,) + tuple(args)
+    if key not in _SHARED:
+        if len(_SHARED) > 256:
+            _SHARED.clear()
+        _SHARED[key] = ctor(*args)
+    return _SHARED[key]
+
+
 def make_resolver(mult, var):
     key = (mult, var)
     if key not in _RESOLVERS:
@@ -118,13 +131,13 @@ def real_exec(line: str) -> str:
 
 def _exec(op, kv):
     if op == "PAIR":
-        eng = AlignerEngine(int(kv["md"]))
+        eng = shared(AlignerEngine, int(kv["md"]))
         eng.iteration = int(kv["it"])
         res = eng.align(C.parse_map(kv["REF"]), C.parse_map(kv["QRY"]), int(kv["start"]), int(kv["stop"]),
                         kv["rev"] == "1")
         return C.show_items(res)
     if op == "SEGS":
-        f = AlignmentSegmentsFactory(int(kv["ms"]), int(kv["bs"]))
+        f = shared(AlignmentSegmentsFactory, int(kv["ms"]), int(kv["bs"]))
         pos = [_Score(s) for s in ints(kv["S"])]
         segs = f.getSegments(pos, Peak(0, 1.0))
         if len(segs) == 1 and segs[0].empty:
@@ -136,14 +149,14 @@ def _exec(op, kv):
             assert all(a is b for a, b in zip(s.positions, pos[i0:i0 + len(s.positions)]))
         return " ".join(out)
     if op == "JOIN":
-        sc = SequentialityScorer(frac(kv["mult"]), int(kv["var"]))
+        sc = shared(SequentialityScorer, frac(kv["mult"]), int(kv["var"]))
         v = sc.getScore(mk_ends_seg(kv["prev"]), mk_ends_seg(kv["cur"]))
         if v == -math.inf:
             return "-inf"
         return rat(v)
     if op == "CHAIN":
         P = params(kv)
-        ch = SegmentChainer(SequentialityScorer(frac(kv["mult"]), int(kv["var"])))
+        ch = shared(SegmentChainer, shared(SequentialityScorer, frac(kv["mult"]), int(kv["var"])))
         return C.show_segs(ch.chain(C.parse_segs(kv.get("SEG", ""), P)))
     if op == "OVERLAP":
         P = params(kv)
@@ -160,7 +173,7 @@ def _exec(op, kv):
         return C.show_segs(res.resolveConflicts(C.parse_segs(kv.get("SEG", ""), P)).segments)
     if op == "GETSEGS":
         P = params(kv)
-        f = AlignmentSegmentsFactory(P["ms"], P["bs"])
+        f = shared(AlignmentSegmentsFactory, P["ms"], P["bs"])
         return C.show_segs(f.getSegments(C.parse_items(kv.get("X", ""), P), Peak(int(kv["peak"]), 1.0)))
     if op == "CANDIDATE":
         P = params(kv)
@@ -203,7 +216,7 @@ def _exec(op, kv):
     if op == "SEQ":
         from src.correlation.sequence_generator import SequenceGenerator
         stop = None if kv["stop"] == "none" else int(kv["stop"])
-        v = SequenceGenerator(int(kv["res"]), int(kv["blur"])).positionsToSequence(ints(kv.get("POS", "")), int(kv["start"]), stop)
+        v = shared(SequenceGenerator, int(kv["res"]), int(kv["blur"])).positionsToSequence(ints(kv.get("POS", "")), int(kv["start"]), stop)
         return "".join(str(int(b)) for b in v)
     if op == "XCORR":
         # exactly the call `refine` makes: integer arrays, mode 'valid', method 'fft'
@@ -229,7 +242,7 @@ def _exec(op, kv):
         res, bl, margin, thr = kv["sec"].split(",")
         ref, qry = C.parse_map(kv["REF"]), C.parse_map(kv["QRY"])
         ia = InitialAlignment(np.array([]), qry, ref, [], kv["rev"] == "1", 0., 1400, 1)
-        ra = ia.refine(int(kv["peak"]), SequenceGenerator(int(res), int(bl)), int(margin), float(frac(thr)))
+        ra = ia.refine(int(kv["peak"]), shared(SequenceGenerator, int(res), int(bl)), int(margin), float(frac(thr)))
         pk = [(p.position, p.height) for p in ra.peaks]
         # more than 10 pass find_peaks <=> createPeaks went through argpartition; observable only through the
         # correlation the result carries: re-count with the same call
@@ -251,7 +264,7 @@ def _exec(op, kv):
         # ties); this op only feeds the model-independent oracle `oracle_primary`
         from src.correlation.sequence_generator import SequenceGenerator
         ref, qry = C.parse_map(kv["REF"]), C.parse_map(kv["QRY"])
-        ia = qry.getInitialAlignment(ref, SequenceGenerator(int(kv["res"]), int(kv["blur"])), int(kv["mpd"]), int(kv["count"]),
+        ia = qry.getInitialAlignment(ref, shared(SequenceGenerator, int(kv["res"]), int(kv["blur"])), int(kv["mpd"]), int(kv["count"]),
                                      kv["rev"] == "1")
         if type(ia).__name__ == "EmptyInitialAlignment":
             return "EMPTY"
@@ -281,7 +294,7 @@ def _exec(op, kv):
             peaks = [Peak(j, hs[j], 0, 0, sc[j]) for j in range(i, i + g)]
             corrs.append(CorrelationResult(np.array([]), None, None, peaks, False, 0.))
             i += g
-        sel = PeaksSelector(int(kv["count"])).selectPeaks(iter(corrs))
+        sel = shared(PeaksSelector, int(kv["count"])).selectPeaks(iter(corrs))
         return ",".join(str(sp.peak.position) for sp in sel)
     if op == "FILTER":
         es = [t for t in kv.get("ROWS", "").split(",") if t]
@@ -349,7 +362,7 @@ def _readcmap(kv):
         if extra:
             line += "\t12.5\t0.3"
         text += line + "\n"
-    maps = CmapReader().readQueries(io.StringIO(text), ids)
+    maps = shared(CmapReader).readQueries(io.StringIO(text), ids)
     out = []
     for m in maps:
         pos = [round(p * unit) for p in m.positions]
@@ -389,11 +402,11 @@ def _xrow(kv):
                 pass
             a = A()
             a.x = 1
-            XmapReader().writeAlignments(f, res, a)
+            shared(XmapReader).writeAlignments(f, res, a)
         lines = [l.rstrip("\n") for l in open(p) if not l.startswith("#")]
         line = lines[-1]
         with open(p) as f:
-            als = XmapReader().readAlignments(f)
+            als = shared(XmapReader).readAlignments(f)
         y = als[-1]
         import math as _m
         hit = y.cigarString
